@@ -1206,6 +1206,155 @@ def ifexp_to_if(fnode):
     return fn
 
 
+def mode_variable_to_nested_loop(fnode):
+    """a loop that reads a stream in two modes kept in a local M --
+
+        M = None
+        for x in SRC:
+            if M is not None:
+                (a, b, ...) = M            # optional
+                T ...                      # every path ends the iteration; `M = None` on a path leaves the mode
+                continue
+            C ...
+            M = (e1, e2, ...)              # last statement of the body: enter the mode
+        if M is not None:
+            raise E
+
+    is the nested loop it abbreviates: the iterations in which M is set are the iterations of an inner loop over the same iterator
+    that begins when M is assigned and ends where M is reset; the stream ending in the mode is the inner loop's else --
+
+        it = iter(SRC)
+        for x in it:
+            C ...
+            a = e1; b = e2; ...
+            for x in it:
+                T ...   (`M = None`: removed, the path ends in `break`)
+            else:
+                raise E
+
+    Conditions checked: M is assigned only at these three places and read only by the mode test, the unpacking and the final test
+    (there `M[k]` stands for the k-th unpacked name); the loop has no break and no else.  Returns the new function node or None."""
+    fn = clone(fnode)
+    body = fn.body
+    for li, loop in enumerate(body):
+        if not (isinstance(loop, ast.For) and not loop.orelse and loop.body and isinstance(loop.body[0], ast.If) and isinstance(loop.target, ast.Name)):
+            continue
+        head = loop.body[0]
+        t = norm(head.test)
+        if not t.endswith(' is not None') or head.orelse:
+            continue
+        M = t[:-len(' is not None')]
+        if not M.isidentifier():
+            continue
+        # initialisation before the loop, final test after it
+        init = [st for st in body[:li] if isinstance(st, ast.Assign) and len(st.targets) == 1 and norm(st.targets[0]) == M]
+        if len(init) != 1 or not (isinstance(init[0].value, ast.Constant) and init[0].value.value is None):
+            return None
+        post = body[li + 1:]
+        if not (len(post) >= 1 and isinstance(post[0], ast.If) and norm(post[0].test) == t and not post[0].orelse and len(post[0].body) == 1
+                and isinstance(post[0].body[0], ast.Raise)):
+            return None
+        if any(isinstance(n, ast.Name) and n.id == M for st in post[1:] for n in ast.walk(st)):
+            return None
+        tbody = list(head.body)
+        if not tbody or not isinstance(tbody[-1], ast.Continue):
+            return None
+        tbody = tbody[:-1]
+        names = None
+        if tbody and isinstance(tbody[0], ast.Assign) and len(tbody[0].targets) == 1 and isinstance(tbody[0].targets[0], (ast.Tuple, ast.List)) \
+                and norm(tbody[0].value) == M and all(isinstance(e, ast.Name) for e in tbody[0].targets[0].elts):
+            names = [e.id for e in tbody[0].targets[0].elts]
+            tbody = tbody[1:]
+        cbody = loop.body[1:]
+        if not cbody:
+            return None
+        enter = cbody[-1]
+        if not (isinstance(enter, ast.Assign) and len(enter.targets) == 1 and norm(enter.targets[0]) == M and isinstance(enter.value, ast.Tuple)
+                and (names is None or len(enter.value.elts) == len(names))):
+            return None
+        if any(isinstance(n, ast.Name) and n.id == M for st in cbody[:-1] for n in ast.walk(st)):
+            return None
+        if any(isinstance(n, ast.Break) for st in loop.body for n in walk_no_nested(st)):
+            return None
+        # inside T: M occurs only in `M = None`
+        resets = []
+        for st in tbody:
+            for n in ast.walk(st):
+                if isinstance(n, ast.Assign) and len(n.targets) == 1 and norm(n.targets[0]) == M and isinstance(n.value, ast.Constant) and n.value.value is None:
+                    resets.append(n)
+        others = [n for st in tbody for n in ast.walk(st) if isinstance(n, ast.Name) and n.id == M]
+        if len(others) != len(resets) or not resets:
+            return None
+        if any(isinstance(n, ast.Continue) for st in tbody for n in walk_no_nested(st)):
+            return None
+
+        hoisted = []
+
+        def leave(block):
+            """the block with `M = None` removed; a block that contained it ends in break.  With a single reset, what the block does
+            besides moves behind the inner loop: the loop is left normally only through that break (its else raises), so these
+            statements run exactly when and right after the break is taken."""
+            out, hit = [], False
+            for st in block:
+                if st in resets:
+                    hit = True
+                    continue
+                if isinstance(st, ast.If):
+                    st = copy.copy(st)
+                    st.body = leave(st.body) or [ast.Pass()]
+                    st.orelse = leave(st.orelse)
+                out.append(st)
+            if hit:
+                if any(isinstance(n, ast.Assign) and n in resets for st in out for n in ast.walk(st)):
+                    raise ValueError
+                if len(resets) == 1 and not any(isinstance(n, (ast.If, ast.For, ast.While, ast.Try)) for st in out for n in ast.walk(st)):
+                    hoisted.extend(out)
+                    out = []
+                out.append(ast.Break())
+            return out
+        try:
+            inner_body = leave(tbody)
+        except ValueError:
+            return None
+        # a reset must end its iteration: it sits in a branch whose end falls through to the `continue` (checked: the reset's block
+        # is a branch of an if that is the last statement of T, or T itself)
+        last = tbody[-1] if tbody else None
+        ok_pos = all(r in tbody or (isinstance(last, ast.If) and (r in last.body or r in last.orelse)) for r in resets)
+        if not ok_pos:
+            return None
+        # final test: M[k] stands for the k-th unpacked name
+        class Sub(ast.NodeTransformer):
+            def visit_Subscript(self, n):
+                if norm(n.value) == M and isinstance(n.slice, ast.Constant) and isinstance(n.slice.value, int) and names is not None \
+                        and 0 <= n.slice.value < len(names):
+                    return ast.copy_location(ast.Name(id=names[n.slice.value], ctx=ast.Load()), n)
+                return self.generic_visit(n)
+        els = [Sub().visit(clone(post[0].body[0]))]
+        if any(isinstance(n, ast.Name) and n.id == M for n in ast.walk(els[0])):
+            return None
+        itname = '__stream'
+        binds = []
+        if names is not None:
+            for nm, e in zip(names, enter.value.elts):
+                if not (isinstance(e, ast.Name) and e.id == nm):
+                    binds.append(ast.copy_location(ast.Assign(targets=[ast.Name(id=nm, ctx=ast.Store())], value=e), enter))
+        inner = ast.copy_location(ast.For(target=clone(loop.target), iter=ast.Name(id=itname, ctx=ast.Load()), body=inner_body or [ast.Pass()], orelse=els), enter)
+        after = [clone(st) for st in hoisted]
+        for st in after:
+            for n in ast.walk(st):
+                if hasattr(n, 'lineno'):
+                    n.lineno = n.end_lineno = enter.lineno + 1        # (behind the inner loop in the line order as well)
+        new_loop = ast.copy_location(ast.For(target=loop.target, iter=ast.Name(id=itname, ctx=ast.Load()), body=cbody[:-1] + binds + [inner] + after, orelse=[]), loop)
+        mk_it = ast.copy_location(ast.Assign(targets=[ast.Name(id=itname, ctx=ast.Store())],
+                                             value=ast.Call(func=ast.Name(id='iter', ctx=ast.Load()), args=[loop.iter], keywords=[])), loop)
+        fn.body = [st for st in body[:li] if st is not init[0]] + [mk_it, new_loop] + post[1:]
+        ast.fix_missing_locations(fn)
+        from .core import set_parents
+        set_parents(fn)
+        return fn
+    return None
+
+
 def split_group_unpacking(fnode):
     """`a, b, c = m.group(x, y, z)` (as many targets as arguments, m a plain name) is `a = m.group(x); b = m.group(y); c = m.group(z)`:
     Match.group with several arguments returns the tuple of the single groups."""
